@@ -461,10 +461,17 @@ var cursorStyles = []tcell.CursorStyle{
 	tcell.CursorStyleBlinkingUnderline, tcell.CursorStyleSteadyUnderline, tcell.CursorStyleBlinkingBar, tcell.CursorStyleSteadyBar,
 }
 
-func runDraw(c DrawCase) (err error) {
+// runDraw evaluates a history under a guard: a drawing call that never returns
+// is a failure of the case ("never wedges"), not a hung test process.
+func runDraw(c DrawCase) error {
 	// js/wasm is single threaded and never preempts: yield once per case so that
 	// the garbage collector's workers get to run (without this the heap grew to 2 GB)
 	runtime.Gosched()
+	at := "Init"
+	return guardedErr(fullGuard, func() string { return "draw history stuck in " + at }, func() error { return runDrawSteps(c, &at) })
+}
+
+func runDrawSteps(c DrawCase, at *string) (err error) {
 	freshPage()
 	s, e := tcell.NewScreen()
 	if e != nil || s == nil {
@@ -489,6 +496,7 @@ func runDraw(c DrawCase) (err error) {
 	m.snapshot(p)
 	var soft []softKnown
 	for i, op := range c.Ops {
+		*at = fmt.Sprintf("step %d (%s)", i, op.Kind)
 		p.beginOp()
 		if op.Kind != "size" {
 			m.ensure()
